@@ -227,7 +227,7 @@ class SymbolicExpression(IdentifiedByItself, Generic[T], ABC):
         conditions_root = self._root_
         while conditions_root._child_ is not None:
             conditions_root = conditions_root._child_
-            if isinstance(conditions_root._parent_, Entity):
+            if isinstance(conditions_root._parent_, QueryObjectDescriptor):
                 break
         return conditions_root
 
